@@ -31,6 +31,7 @@ code, source / destination ids on both paths, equal to the field vector; as_ipsc
 from mc import env  # noqa: F401  (must be first)
 from mc import par, spaces
 from mc.report import Report, Acc, exc_sig
+from mc.hist import scramble
 from mc.oracle import gf2
 
 import itertools
@@ -364,6 +365,12 @@ class Payloads:
 def observe(arg):
     """decode by one path; returns dict of public observables or {'exception': sig}"""
     try:
+        # history probe: a first parse whose result the caller then rewrites in place must not influence the next parse of the
+        # same bytes (parse results cached / shared by the library)
+        try:
+            scramble(Burst.from_hytera_ipsc(arg))
+        except Exception:  # noqa: BLE001
+            pass
         b = Burst.from_hytera_ipsc(arg)
     except Exception as e:
         return {"exception": exc_sig(e), "repr": repr(e)}, None
